@@ -109,3 +109,40 @@ def nLatest (s : TrkState) (n : Int) : List Track :=
   else ((sortByLu s.tracks).reverse).take k
 
 end Model
+
+namespace Model
+
+/-- operations of a tracker history -/
+inductive TrkOp
+  | update (m : Int) (attrs : List (String × Val)) (ts : Option Int)   -- `ts = none`: default timestamp = now
+  | pop (m : Int)
+  | cleanup
+  | tick (t : Int)                  -- the wall clock jumps to `t`
+  | setTtl (ttl : Option Int)       -- `tracker.ttl_in_seconds = …`
+  deriving Repr, Inhabited
+
+/-- tracker plus wall clock plus everything observable so far -/
+structure TrkRun where
+  st : TrkState
+  now : Int := 0
+  events : List (Ev × Int) := []       -- callbacks fired so far, oldest first
+  verdicts : List Bool := []           -- per `update`: accepted?
+  deriving Repr, Inhabited
+
+def trkStep (r : TrkRun) : TrkOp → TrkRun
+  | .update m attrs ts =>
+    let (st, evs, ok) := update r.st m attrs (ts.getD r.now) r.now
+    { r with st := st, events := r.events ++ evs, verdicts := r.verdicts ++ [ok] }
+  | .pop m =>
+    let (st, evs, _) := popTrack r.st m
+    { r with st := st, events := r.events ++ evs }
+  | .cleanup =>
+    let (st, evs) := cleanup r.st r.now
+    { r with st := st, events := r.events ++ evs }
+  | .tick t => { r with now := t }
+  | .setTtl ttl => { r with st := { r.st with ttl := ttl } }
+
+def trkRun (ordered : Bool) (ttl : Option Int) (ops : List TrkOp) : TrkRun :=
+  ops.foldl trkStep { st := { ordered := ordered, ttl := ttl } }
+
+end Model
